@@ -16,7 +16,9 @@
 // submitted in every byte form (q06Wires), not only as crypto.Sign renders them; queues grow beyond
 // the page size of the queries (opPutN, directed valset_behind_backlog); evidence is re-submitted
 // (TestC13Prune); batch confirmations are delivered by transactions whose creator is NOT the
-// orchestrator they name, and blocks pass while signed messages sit in the queue (c06_aging_test.go).
+// orchestrator they name, and blocks pass while signed messages sit in the queue (c06_aging_test.go); the
+// sibling chains have turnstone queues of their own and ONE MsgAddMessagesSignatures carries signatures for
+// several messages of several queues (c06_multichain_test.go).
 // Monitors evaluate the property on what the harness itself did and saw registered,
 // never on what the implementation stored.
 package harness
@@ -2181,6 +2183,9 @@ func q06RunTest(t *testing.T, prop string) {
 		q14Directed(t, r, fx)
 	}
 	q14ValsetEnqueue(t, r, fx)
+	if prop == "C06" {
+		c06mCases(t, r, fx) // several queues, several signatures per request (c06_multichain_test.go); last: earlier random streams unchanged
+	}
 }
 
 func TestC06(t *testing.T) { q06RunTest(t, "C06") }
